@@ -207,7 +207,6 @@ func (s *sysB) recorded() (map[string]int32, int64, int32) {
 	return per, sum, state
 }
 
-
 // saturatedHandover: the BFS depth does not reach "everything is handed out, THEN the shard changes hands, THEN a busy
 // instance reports". This runs exactly that, on the write-back store, for every placement of the flushes: instances
 // report overload until the recorded sum stops growing, the shard is given up and taken again, and every instance
